@@ -117,6 +117,25 @@ class Obj:
         return f'<{self.label}>'
 
 
+class EnumMember:
+    """A member of a plain enum.Enum subclass of the repository: equal only to itself (never to its int value)."""
+    _cache = {}
+
+    def __init__(self, cls, name, value):
+        self.cls, self.name, self.value = cls, name, value
+
+    @classmethod
+    def of(cls_, cls, name, value):
+        key = (cls.module.relpath, cls.name, name)
+        m = cls_._cache.get(key)
+        if m is None:
+            m = cls_._cache[key] = cls_(cls, name, value)
+        return m
+
+    def __repr__(self):
+        return f'<{self.cls.name}.{self.name}: {self.value!r}>'
+
+
 class ClassVal:
     def __init__(self, info):
         self.info = info
